@@ -211,7 +211,7 @@ class Check:
                "traces_validated_against_impl": self.traces, "samples": self.samples or [{"note": "no sample"}],
                "evaluations": self.evaluations, "distinct_nontrivial": len(self.distinct),
                "rule": rule, "exhaustive": self.exhaustive, "mc_runs": self.mc_runs,
-               "spec_action_outcomes_reached_by_conforming_impl_events": sorted("%s:%s" % c for c in self.cov)[:400],
+               "spec_action_outcomes_reached_by_conforming_impl_events": sorted(":".join(str(x) for x in c) for c in self.cov)[:400],
                "n_action_outcomes": len(self.cov), "trace_stats": self.stats, "checker_cmd": self.cmds[0] if self.cmds else "",
                "known_findings_matched": self.known_hits, "notes": self.notes}
         if extra:
